@@ -74,6 +74,13 @@ def wide_model(draw, like=None):
         done.append(n)
     for s in states:
         assigns.append({"name": X.deriv_name(s["name"]), "expr": combo(done + sn, draw(st.integers(2, 5))), "comps": list(s["comps"])})
+    if like is None and draw(st.integers(0, 5)) == 0:
+        # a monitor-only quantity that happens to bear the name of a temporary of the Rush-Larsen schemes
+        # (whatever the generated code makes of the clash, it must make the same of it in every process)
+        s = draw(st.sampled_from(states))
+        nm = X.deriv_name(s["name"]) + "_linearized"
+        if nm not in sn + pn + inn:
+            assigns.append({"name": nm, "expr": ["bin", "*", ["num", "2"], ["var", s["name"]]], "comps": list(s["comps"])})
     assigns = list(draw(st.permutations(assigns)))
     return {"states": states, "params": params, "assigns": assigns}
 
